@@ -3,8 +3,8 @@
 # Applies a seeded change to a scratch worktree of /repo (never to /repo itself), confirms the demonstration
 # (passes without, fails with), runs ./check <property> against the changed tree and reports whether it was caught.
 P="$1"; D="$2"; TIER="${3:-quick}"
-W=/tmp/mutrun
-cd /verif || exit 2
+W=${MUTRUN:-/tmp/mutrun}
+cd "${VERIF_DIR:-/verif}" || exit 2
 [ -d "$W" ] || git -C /repo worktree add -q --detach "$W" HEAD
 git -C "$W" checkout -q --detach "$(git -C /repo rev-parse HEAD)" && git -C "$W" checkout -q -- . && git -C "$W" clean -fdq
 PYTHONPATH=$W/src /venv/bin/python "$D/demo.py" >/dev/null 2>&1; d0=$?
